@@ -65,9 +65,22 @@ def run(ctx):
                   a=dict(writes=[tot], shutdown=True), b=dict(writes=[tot], shutdown=True), a2b=dict(), b2a=dict())
         sc[lossy] = dict(rules=[dict(kind='data', nth=n, act='drop') for n in sorted(rng.sample(range(2, 30), 3))])
         scs.append(sc)
+    # asymmetric link MTUs: the peer's announced MSS (its MTU - 40) is the binding limit, not the sender's own MTU
+    for k in range(ctx.pick(6, 24)):
+        big, small = rng.choice([1500, 1500, 9000]), [100, 300, 576, 200, 1000, 68][k % 6]
+        ma, mb = (big, small) if k % 2 == 0 else (small, big)
+        sc = dict(v=4, mtu=ma, mtu_b=mb, sack=(k % 3 == 0), cc='', deadline_ms=45000, seed=7500 + k, flags={}, tag='asym-mtu-%d-a%d-b%d' % (k, ma, mb),
+                  a=dict(writes=tcplib.chunks(rng, rng.choice([3000, 12000]), 5000), shutdown=True),
+                  b=dict(writes=tcplib.chunks(rng, rng.choice([3000, 12000]), 5000), shutdown=True),
+                  a2b=dict(loss=rng.choice([0, 0.03]), budget=3), b2a=dict(loss=rng.choice([0, 0.03]), budget=3))
+        scs.append(sc)
     segs, stats, rep = tcplib.run_pair(ctx, drv, scs, ['C04'], 'c04', what='TCP window/MSS behaviour', classify=tcplib.classify_all)
     ctx.extra.update(stats)
     ctx.extra['zero_window_advertisements'] = sum(1 for s in segs for e in s if e['ev'] == 'emit' and e.get('wnd') == 0 and 'S' not in e.get('flags', '') and 'R' not in e.get('flags', ''))
+    # the MSS clause is exercised only where the peer's MSS is smaller than what the sender's own MTU would allow
+    nmss = sum(1 for sg in segs for e in sg if e['ev'] == 'emit' and e.get('len', 0) > 0 and sg[0].get('mtu_b', sg[0]['mtu']) != sg[0]['mtu']
+               and e['len'] == (sg[0]['mtu_b'] if e['e'] == 'a' else sg[0]['mtu']) - (60 if sg[0].get('v') == 6 else 40))
+    ctx.extra['data_segments_bounded_by_peer_mss_only'] = nmss
     nsack = sum(1 for sg in segs for e in sg if e['ev'] == 'emit' and e.get('len', 0) > 0 and e.get('sack'))
     ctx.extra['data_segments_carrying_sack_blocks'] = nsack
     if nsack == 0:
